@@ -44,12 +44,16 @@ def run_property(prop: str, repo: Repo):
     reports = []
     for rule_id, desc, floor, fn in registry.RULES.get(prop, []):
         rc = RuleCtx(repo, prop, rule_id, desc, floor)
-        fn(rc)
-        if len(rc.report.instances) < floor and not rc.report.findings:
-            raise AnalysisError(
-                f"rule {rule_id}: only {len(rc.report.instances)} instance(s) analysed, floor is {floor} "
-                f"(the rule would pass vacuously; anchors moved?)"
-            )
+        try:
+            fn(rc)
+            if len(rc.report.instances) < floor and not rc.report.findings:
+                raise AnalysisError(
+                    f"only {len(rc.report.instances)} instance(s) analysed, floor is {floor} "
+                    f"(the rule would pass vacuously; anchors moved?)"
+                )
+        except AnalysisError as e:
+            # one rule that cannot decide must not hide what the other rules found
+            rc.report.error = f"rule {rule_id}: {e}"
         reports.append(rc.report)
     if not reports:
         raise AnalysisError(f"no rules registered for {prop}")
@@ -92,11 +96,12 @@ def main(argv=None):
         return 2
 
     findings = [f for r in reports for f in r.findings]
+    errors = [r.error for r in reports if getattr(r, "error", None)]
 
     if args.json:
         json.dump({"property": prop, "findings": [f.to_json() for f in findings],
                    "instances": {r.rule: len(r.instances) for r in reports}}, sys.stdout)
-        return 1 if findings else 0
+        return 1 if findings else (2 if errors else 0)
 
     if args.replay:
         want = json.load(open(args.replay))
@@ -131,6 +136,9 @@ def main(argv=None):
         print(f"KNOWN-FINDING: property={prop} {e.get('defect', '')} {f.file}:{f.func} [{f.rule}] {e.get('what', f.message)}")
     outdir = os.path.join(VERIF, "out", prop)
     rc = 0
+    for e in errors:
+        print(f"ANALYSIS-ERROR property={prop} {e}")
+        rc = 2
     if new:
         os.makedirs(outdir, exist_ok=True)
         for i, f in enumerate(new):
